@@ -10,7 +10,7 @@ import numpy as np
 
 import felupe as fem
 
-from .kernel import Discard
+from .kernel import Discard, pick
 
 
 # ----------------------------------------------------------------------------------------
@@ -307,7 +307,7 @@ class World:
                 kw["density"] = it["density"]
             return fem.SolidBodyNearlyIncompressible(self._umat(k, it["umat"]), f, bulk=it["bulk"], **kw)
         self.umats.append(None)
-        as_int = self.doc.get("seed", 0) % 4 == 1  # initial load values typed as Python ints where integral
+        as_int = pick(self.doc.get("seed", 0), "int-loads", 4) == 1  # initial load values typed as Python ints where integral
 
         def typed(v):
             a = np.asarray(v, dtype=float)
@@ -531,7 +531,7 @@ class World:
             X = self.mesh.points[self.patch_points]
             v = float(r["values"][i]) * (X @ H.T)
             # the same numbers in column-major memory layout (e.g. built as np.array([ux, uy]).T)
-            return np.asfortranarray(v) if self.doc.get("seed", 0) % 3 == 0 else v
+            return np.asfortranarray(v) if pick(self.doc.get("seed", 0), "patch-forder", 3) == 0 else v
         v = r["values"][i]
         if isinstance(v, list):
             v = np.asarray(v, dtype=float)
